@@ -425,6 +425,8 @@ class Interp:
     def colset(self, m, field, k, val):
         p = self.heap[m.oid]
         oc = p["cols"][field]
+        if val is None:
+            val = nanval()        # a float-typed column set to None (e.g. LimitOrderBook.time): "no value"
         p["cols"][field] = memo(lambda x, oc=oc, k=k, val=val: vite(x == k, val, oc(x)))
         self.wrote(m.oid, field)
 
@@ -531,7 +533,9 @@ class Interp:
             if isinstance(o, Obj) and o.kind == "rec":
                 self.fset(o, t.attr, v)
             elif isinstance(o, RowRef):
-                self.colset(o.m, t.attr, o.k, v)
+                hook = self.heap[o.m.oid].get("setattr_hook")
+                if hook is None or not hook(self, o, t.attr, v):
+                    self.colset(o.m, t.attr, o.k, v)
             else:
                 raise Unsupported("attribute store on %r" % (o,))
         elif isinstance(t, ast.Subscript):
@@ -677,6 +681,11 @@ class Interp:
             raise Unsupported("attribute %s.%s" % (o.cls, attr))
         if isinstance(o, RowRef):
             cols = self.heap[o.m.oid]["cols"]
+            hook = self.heap[o.m.oid].get("getattr_hook")
+            if hook is not None:
+                hv = hook(self, o, attr)
+                if hv is not None:
+                    return hv
             if attr in cols:
                 return cols[attr](o.k)
             r = resolve_method(o.cls, attr)
